@@ -2248,7 +2248,7 @@ class AllocationRetentionPriority:
 class DefaultEpsBearerQos:
     """A data container that represents the "Default-EPS-Bearer-QoS" (1435) grouped AVP."""
     qos_class_identifier: int = None
-    allocation_retention_priority: AllocationRetentionPriority = AllocationRetentionPriority
+    allocation_retention_priority: AllocationRetentionPriority = None
 
     # noinspection PyDataclass
     avp_def: dataclasses.InitVar[AvpGenType] = (
@@ -2264,7 +2264,7 @@ class EpsSubscribedQosProfile:
     3GPP TS 29.272 version 19.4.0
     """
     qos_class_identifier: int = None
-    allocation_retention_priority: AllocationRetentionPriority = AllocationRetentionPriority
+    allocation_retention_priority: AllocationRetentionPriority = None
     additional_avps: list[Avp] = dataclasses.field(default_factory=list)
 
     # noinspection PyDataclass
